@@ -237,7 +237,7 @@ def mfd_min(columns, demand, wt=int, cons_cols=None, kmax=None):
     return _num(o.model(), tot)
 
 
-def lae_min(columns, demand, k, wt=int, scale=None, superset=None, cons_cols=None):
+def lae_min(columns, demand, k, wt=int, scale=None, superset=None, cons_cols=None, prod_cap=None):
     """min sum_e scale_e*|f_e - sum_i w_i col_i[e]| using at most k selected columns. superset: multiset of allowed
     weights, each usable at most once (then k bounds the number of non-empty paths)."""
     scale = scale or {}
@@ -248,6 +248,10 @@ def lae_min(columns, demand, k, wt=int, scale=None, superset=None, cons_cols=Non
         W = [_V(wt, f"w{i}") for i in range(n)]
         for w, y in zip(W, Y):
             o.add(w >= 0, z3.Implies(w > 0, y))
+        if prod_cap is not None:
+            # mimic a model that bounds every product multiplicity*weight (used only to classify a finding by mechanism)
+            for i, c in enumerate(columns):
+                o.add(W[i] * max(c.values()) <= _q(prod_cap))
         expr = lambda e: z3.Sum([W[i] * c[e] for i, c in enumerate(columns) if c.get(e, 0) > 0] + [_q(0)])
     else:
         # A[i][j] : column i uses superset weight j
@@ -277,7 +281,7 @@ def lae_min(columns, demand, k, wt=int, scale=None, superset=None, cons_cols=Non
     return _num(o.model(), tot)
 
 
-def mpe_min(columns, demand, k, wt=int, scale=None, col_factor=None, superset=None, cons_cols=None):
+def mpe_min(columns, demand, k, wt=int, scale=None, col_factor=None, superset=None, cons_cols=None, prod_cap=None):
     """min sum_i r_i s.t. scale_e*|f_e - sum_i w_i col_i[e]| <= sum_i r_i*fac_i*col_i[e], at most k selected columns.
     Returns optimum or None if infeasible."""
     scale = scale or {}
@@ -289,6 +293,9 @@ def mpe_min(columns, demand, k, wt=int, scale=None, col_factor=None, superset=No
         W = [_V(wt, f"w{i}") for i in range(n)]
         for w, r, y in zip(W, R, Y):
             o.add(w >= 0, r >= 0, z3.Implies(z3.Or(w > 0, r > 0), y))
+        if prod_cap is not None:
+            for i, c in enumerate(columns):
+                o.add(W[i] * max(c.values()) <= _q(prod_cap), R[i] * max(c.values()) <= _q(prod_cap))
         o.add(z3.Sum([z3.If(y, 1, 0) for y in Y] + [z3.IntVal(0)]) <= k)
         wexpr = lambda e: z3.Sum([W[i] * c[e] for i, c in enumerate(columns) if c.get(e, 0) > 0] + [_q(0)])
         rexpr = lambda e: z3.Sum([R[i] * c[e] * _q((col_factor or {}).get(i, 1)) for i, c in enumerate(columns) if c.get(e, 0) > 0] + [_q(0)])
